@@ -20,6 +20,8 @@ import (
 	"github.com/nuetzliches/hookaido/internal/verifkit/bfs"
 	"github.com/nuetzliches/hookaido/internal/verifkit/qmodel"
 	"github.com/nuetzliches/hookaido/internal/verifkit/runner"
+	workerapipb "github.com/nuetzliches/hookaido/internal/workerapi/proto"
+	"google.golang.org/grpc"
 )
 
 const (
@@ -29,12 +31,16 @@ const (
 )
 
 func dsl(backend string, port int) string {
+	grpcListen := ""
+	if withGRPC { // transport_test.go: the worker gRPC server next to the pull HTTP server, both in front of one pullapi.Server
+		grpcListen = fmt.Sprintf(" grpc_listen %q", grpcAddr(port))
+	}
 	return fmt.Sprintf(`
 ingress   { listen "127.0.0.1:%d" }
-pull_api  { listen "127.0.0.1:%d"  auth token "raw:g1" }
+pull_api  { listen "127.0.0.1:%d"%s  auth token "raw:g1" }
 admin_api { listen "127.0.0.1:%d" }
 /r { queue { backend %s }  pull { path %s } }
-`, port, port+1, port+2, backend, endpoint)
+`, port, port+1, grpcListen, port+2, backend, endpoint)
 }
 
 // op of the search alphabet (pull API level).
@@ -45,9 +51,16 @@ type op struct {
 	Leases []string
 	IDs    []string
 	Dur    time.Duration
+	// transport_test.go: Via "" = pull HTTP handler, "grpc" = worker gRPC server; Sp = spelling of the lease id in
+	// each lease-id position (index 0 for the single forms), "" = exactly as handed out
+	Via string   `json:",omitempty"`
+	Sp  []string `json:",omitempty"`
 }
 
 func (o op) String() string {
+	if o.Via != "" || len(o.Sp) > 0 {
+		return o.xString()
+	}
 	switch o.Kind {
 	case "deq":
 		return fmt.Sprintf("dequeue(batch=%d)", o.Batch)
@@ -77,10 +90,19 @@ type st struct {
 	Presented map[string]int64
 	// Gen: number of restarts so far (the pull server's idempotency cache does not survive one); part of the key
 	Gen int
+	// PVia (transport search only): how the presentation recorded in Presented arrived (transport, padded or not);
+	// part of the de-duplication key for the same reason
+	PVia map[string]string
 }
 
 func (s st) clone() st {
 	c := st{M: s.M.Clone(), Remembered: map[string]int64{}, Presented: map[string]int64{}, Gen: s.Gen}
+	if s.PVia != nil {
+		c.PVia = make(map[string]string, len(s.PVia))
+		for k, v := range s.PVia {
+			c.PVia[k] = v
+		}
+	}
 	c.M.Edges = map[string]int{}
 	for k, v := range s.Remembered {
 		c.Remembered[k] = v
@@ -110,6 +132,9 @@ type world struct {
 	handles map[string]string
 	reverse map[string]string
 	bases   map[string]int
+	// transport_test.go: client of the worker gRPC server of this boot (connected on first use)
+	conn *grpc.ClientConn
+	cli  workerapipb.WorkerServiceClient
 }
 
 func boot(backend, dir string) (*world, error) {
@@ -524,12 +549,18 @@ func expired(m *qmodel.Model, h string) bool {
 
 func TestCheck(t *testing.T) {
 	r := runner.Start("C04", "model_checking")
+	if runner.ReplayPath() != "" && replayXport(r, t) {
+		r.Finish()
+	}
 	backends := []string{"memory", "sqlite"}
 	depth := map[string]int{"memory": runner.Pick(r, 5, 7), "sqlite": runner.Pick(r, 4, 6)}
 	budget := runner.Pick(r, 110*time.Second, 12*time.Minute)
 	shards := 12
 	const rshards = 3
 	njobs := len(backends)*shards + len(backends)*rshards // + restart-focus jobs
+	if ji, ok := runner.Job(); ok && ji >= njobs {
+		xportJob(r, t, backends, ji-njobs) // transport_test.go: the same operations over HTTP and gRPC, padded lease ids
+	}
 	if ji, ok := runner.Job(); ok {
 		label := ""
 		backend := ""
@@ -652,7 +683,7 @@ func TestCheck(t *testing.T) {
 		r.Finish()
 	}
 	if _, child := runner.IsShard(); !child && runner.ReplayPath() == "" {
-		r.RunJobs(njobs, 30, budget+3*time.Minute)
+		r.RunJobs(njobs+len(backends)*xshards, 30+len(backends)*xshards, budget+3*time.Minute)
 	}
 	schedPart(r, t)
 	pullDuplicates(r, t)
